@@ -1,11 +1,242 @@
 import SageModel.Proto
+import SageModel.Model.C14
 
-/-! Driver ops for C14 (stub: no ops yet). -/
+/-! Driver ops for C14.
+
+`kde [n (u64 score, decoy)…] bins u64(bw factor) mono [m u64 sweep…] | [m u64 pep…]`
+
+The model runs at `Float` (IEEE f64, native `exp`/`pow`/`sqrt`, SEQUENTIAL kernel sum).
+
+**agree** — the implementation's value at every sweep point is compared with the model's within
+`K·2⁻⁵²·max(|lower|,|upper|)` (the two model bins the point interpolates between), `K = 4·n + 32`,
+plus an absolute `1e-290` for the subnormal range. Why a bound and not equality: `Kde::pdf` sums
+`n` kernel values in a rayon tree whose shape depends on the pool (each re-association changes
+the sum by ≤ (n−1) half-ulps, relative, all terms being ≥ 0), and `exp`/`pow` come from the
+system libm on the Rust side and from Lean's bundled glibc here (≤ 1 ulp each). The Bayes ratio
+`d/(t+d)` of positive quantities at most doubles the relative error; the envelope (`max`) and the
+interpolation (a convex combination, evaluated with absolute rounding error ~ ulp of the larger
+bin) do not amplify it relative to the larger of the two bins.
+
+**spec** — evaluated on the IMPLEMENTATION's numbers (the reply starts with its values at its
+own grid points):
+* `nan`/`range`  every value is a number in `[0,1]` (EXACT comparison, no allowance);
+* `negative_pep_rounding` no value is below 0, however slightly (its `log10`, what `score_psms`
+                 reports, would be NaN) — the defect repaired in /repo 09cd064 (weight clamped);
+* `grid_antitone` (monotonic mode) grid values never increase with the bin index;
+* `grid_bayes`   grid value `i` = running maximum from the top of the textbook Bayes ratio of
+                 Gaussian KDEs (`specDensity`, `specBandwidth`, `specBayes`, `specEnvelope`)
+                 recomputed here, within the bound above;
+* `interp`       every other sweep point: the value equals the linear interpolation between the
+                 implementation's own two neighbouring grid values (hence lies between them);
+* `sweep_antitone` (monotonic mode) along the sorted sweep the value never increases.
+`grid_antitone`, `grid_bayes`, `interp`, `sweep_antitone` use a stated rounding allowance (not a tuned tolerance):
+`16·2⁻⁵³·M + D·16·2⁻⁵³·(|s|+|min|+|max|)/step` with `M` the largest neighbouring grid value (the larger of
+the implementation's and the recomputed one) and `D` the sum of the jumps of the three bins around the point — the second term is the conditioning of
+the interpolation weight `(s − (i·step + min))/step` when `|min| ≫ step`.
+
+Inputs outside the property's precondition are flagged with their own clause when (and only
+when) the implementation's output breaks the spec: a class with fewer than two distinct scores
+(`bad:nan_zero_variance_class`), and — with the envelope off — a grid point farther than 30
+bandwidths from every sample (`bad:nan_density_underflow`).
+-/
 namespace Sage.C14
 open Sage.Proto
 
+def floatFns : Fns Float :=
+  { exp := Float.exp, sqrt := Float.sqrt, powf := Float.pow,
+    pi := Float.ofBits 0x400921FB54442D18 }   -- std::f64::consts::PI
+
+structure Req where
+  scores : List Float
+  decoys : List Bool
+  nbins : Nat
+  adj : Float
+  mono : Bool
+  sweep : Array Float
+
+def parseReq : P Req := do
+  let pairs ← list (do let s ← f64; let d ← bool; pure (s, d))
+  let nbins ← nat
+  let adj ← f64
+  let mono ← bool
+  let sweep ← list f64
+  pure { scores := pairs.map (·.1), decoys := pairs.map (·.2), nbins, adj, mono, sweep := sweep.toArray }
+
+def u : Float := Float.ofBits 0x3CA0000000000000   -- 2⁻⁵³
+
+/-- number of distinct bit patterns -/
+def distinctCount (l : List Float) : Nat :=
+  (l.map (·.toBits.toNat)).eraseDups.length
+
+def absF (x : Float) : Float := x.abs
+
+/-- get with default 0 -/
+def at0 (a : Array Float) (i : Nat) : Float := a.getD i 0
+
+/-- the spec-side grid: textbook formulas, naive running maximum for small grids -/
+def specGrid (r : Req) (minS step : Float) : Array Float :=
+  let F := floatFns
+  let d := classOf true r.scores r.decoys
+  let t := classOf false r.scores r.decoys
+  let π : Float := ofNat d.length / ofNat r.scores.length
+  let hd := specBandwidth F d r.adj
+  let ht := specBandwidth F t r.adj
+  let raw := (List.range r.nbins).map fun i =>
+    let x := minS + ofNat i * step
+    specBayes π (specDensity F d hd x) (specDensity F t ht x)
+  if !r.mono then raw.toArray
+  else if r.nbins ≤ 128 then (specEnvelope raw).toArray
+  else
+    -- beyond 128 bins the O(n²) definition is replaced by its proven equal (`envelope_spec`)
+    match envelope raw with
+    | some e => e.toArray
+    | none => #[]
+
+/-- is some sample of some class within 30 bandwidths of every grid point? -/
+def denseOk (r : Req) (grid : Array Float) : Bool :=
+  let F := floatFns
+  let d := classOf true r.scores r.decoys
+  let t := classOf false r.scores r.decoys
+  let hd := specBandwidth F d r.adj
+  let ht := specBandwidth F t r.adj
+  grid.all fun g =>
+    d.any (fun x => absF (x - g) ≤ 30 * hd) || t.any (fun x => absF (x - g) ≤ 30 * ht)
+
+def fmtIdx (s : String) (i : Nat) : String := s ++ "@" ++ toString i
+
+/-- structural spec on the implementation's values `v` (one per sweep point; the first `nbins`
+    sweep points are the grid points). Returns `none` when everything holds. -/
+def specCheck (r : Req) (minS maxS step : Float) (v : Array Float) : Option String := Id.run do
+  let n := r.nbins
+  let G := v.extract 0 n
+  -- the textbook grid recomputed here (independent of the implementation's reply)
+  let S := specGrid r minS step
+  if S.size != n then return some "grid_bayes_size"
+  -- magnitudes for the rounding allowance: the implementation's swept grid value AND the recomputed one.
+  -- (At a grid point where the code's own `floor` lands one bin low, the swept value is
+  -- `lower + (upper-lower)·1`, whose absolute error is an ulp of `lower`; when the PEP drops by more than
+  -- 2^53 per bin that is all of `upper`, so the swept value alone would understate the magnitude.)
+  let mag (i : Nat) : Float := let a := absF (at0 G i); let b := absF (at0 S i); if a < b then b else a
+  let jump (i : Nat) : Float :=
+    let a := absF (at0 G (i+1) - at0 G i); let b := absF (at0 S (i+1) - at0 S i); if a < b then b else a
+  let tolAt (j : Nat) (s : Float) : Float :=
+    let M := [mag (j-1), mag j, mag (j+1), mag (j+2)].foldl (fun a b => if a < b then b else a) 0
+    let D := (if j ≥ 1 then jump (j-1) else 0) + jump j + (if j + 2 < n then jump (j+1) else 0)
+    16 * u * M + D * (16 * u * (absF s + absF minS + absF maxS) / step)
+  let binOf (s : Float) : Nat :=
+    let j0 := Nat.min (n - 1) (floorNat ((s - minS) / step))
+    if j0 + 1 < n then j0 else n - 2
+  -- range: a number in [0,1], exact comparison (since the interpolation weight is clamped to [0,1],
+  -- monotone IEEE rounding keeps `lower + (upper-lower)·w` inside [0,1] for bins in [0,1]); a negative
+  -- value gets its own clause: its log10, which is what `score_psms` reports, is NaN
+  for k in [0:v.size] do
+    let x := at0 v k
+    if x.isNaN then return some (fmtIdx "nan" k)
+    if x < 0 then return some (fmtIdx "negative_pep_rounding" k)
+    if !(x ≤ 1) then return some (fmtIdx "range" k)
+  let cond := 16 * u * (absF minS + absF maxS) / step
+  if r.mono then
+    for i in [0:n-1] do
+      if !(at0 G (i+1) ≤ at0 G i + tolAt i maxS) then return some (fmtIdx "grid_antitone" i)
+  -- grid values are the running maximum of the textbook Bayes ratio
+  let K : Float := ofNat (4 * r.scores.length + 32)
+  for i in [0:n] do
+    let m := [at0 S (i-1), at0 S i].foldl (fun a b => if a < absF b then absF b else a) 0
+    let tol := (K * 2 * u + cond) * m + 1e-290
+    if !(absF (at0 G i - at0 S i) ≤ tol) then return some (fmtIdx "grid_bayes" i)
+  -- interpolation between the implementation's own grid values
+  for k in [n:v.size] do
+    let s := at0 r.sweep k
+    let j := binOf s
+    let gj := ofNat j * step + minS
+    let t := (s - gj) / step
+    let lo := at0 G j
+    let hi := at0 G (j+1)
+    let P := lo + (hi - lo) * t
+    let tol := tolAt j s
+    let x := at0 v k
+    if !(absF (x - P) ≤ tol) then return some (fmtIdx "interp" k)
+    let mn := if lo ≤ hi then lo else hi
+    let mx := if lo ≤ hi then hi else lo
+    if !(mn - tol ≤ x && x ≤ mx + tol) then return some (fmtIdx "between" k)
+  -- antitone along the sorted sweep
+  if r.mono then
+    let idx := (Array.range v.size).qsort (fun a b => at0 r.sweep a < at0 r.sweep b)
+    for q in [0:idx.size - 1] do
+      let a := idx.getD q 0
+      let b := idx.getD (q+1) 0
+      let s := at0 r.sweep a
+      let j0 := Nat.min (n - 1) (floorNat ((s - minS) / step))
+      if !(at0 v b ≤ at0 v a + tolAt j0 s) then return some (fmtIdx "sweep_antitone" b)
+  return none
+
+def handleKde (args impl : List String) : Option Reply := do
+  let r ← run parseReq args
+  let F := floatFns
+  let est := build F r.scores r.decoys r.nbins r.adj r.mono
+  let modelVals : Option (Array Float) := do
+    let e ← est
+    r.sweep.mapM (fun s => posteriorError e s)
+  let model : String :=
+    match modelVals with
+    | some vs => outList outF64 vs.toList
+    | none => "panic"
+  let implVals : Option (Array Float) := (run (list f64) impl).map (·.toArray)
+  -- agreement within the stated bound
+  let agree : Bool :=
+    match modelVals, implVals, est with
+    | some mv, some iv, some e =>
+      let K : Float := ofNat (4 * r.scores.length + 32)
+      let bins := e.bins.toArray
+      mv.size == iv.size &&
+      (List.range mv.size).all fun k =>
+        let a := at0 mv k
+        let b := at0 iv k
+        if a.isNaN || b.isNaN then a.isNaN && b.isNaN else
+        let lo := binLo e (at0 r.sweep k)
+        let hi := binHi e lo
+        let L := absF (at0 bins lo)
+        let U := absF (at0 bins hi)
+        let m := if L < U then U else L
+        absF (a - b) ≤ K * 2 * u * m + 1e-290
+    | none, _, _ => impl == ["panic"]
+    | _, _, _ => false
+  -- spec on the implementation's reply
+  let d := classOf true r.scores r.decoys
+  let t := classOf false r.scores r.decoys
+  let spec : String :=
+    match implVals with
+    | none => if impl == ["panic"] then (if r.nbins == 0 || r.scores.isEmpty then "na" else "bad:panic") else "na"
+    | some iv =>
+      if iv.size != r.sweep.size then "bad:length" else
+      match foldExt fmin r.scores, foldExt fmax r.scores with
+      | some minS, some maxS =>
+        if r.nbins < 2 || d.isEmpty || t.isEmpty then "na" else
+        let step := (maxS - minS) / ofNat (r.nbins - 1)
+        let grid := (Array.range r.nbins).map fun i => ofNat i * step + minS
+        -- the structural clauses need the implementation's grid: the first `bins` sweep points
+        let gridGiven := r.sweep.size ≥ r.nbins &&
+          (List.range r.nbins).all fun i => (at0 r.sweep i).toBits == (at0 grid i).toBits
+        -- (the code's last grid point `(bins-1)·step + min` may exceed `max` by an ulp: grid points are exempt)
+        let inRange := (r.sweep.extract r.nbins r.sweep.size).all fun s => minS ≤ s && s ≤ maxS
+        if !gridGiven || !inRange then
+          -- only the range clause can be evaluated
+          if iv.all (fun x => 0 ≤ x && x ≤ 1) || !inRange then "na" else "bad:range"
+        else
+          let degenerate := distinctCount d < 2 || distinctCount t < 2
+          match specCheck r minS maxS step iv with
+          | none => "ok"
+          | some clause =>
+            if degenerate then
+              (if iv.any (·.isNaN) then "bad:nan_zero_variance_class" else "bad:zero_variance_class:" ++ clause)
+            else if !r.mono && !denseOk r grid && iv.any (·.isNaN) then "bad:nan_density_underflow"
+            else "bad:" ++ clause
+      | _, _ => "na"
+  pure { model, agree, spec }
+
 def handle (op : String) (args impl : List String) : Option Reply :=
   match op with
+  | "kde" => handleKde args impl
   | _ => none
 
 end Sage.C14
